@@ -143,7 +143,7 @@ SPECS["C01"] = _rec(
     "working file system; <=8 fields (rarely 30), <=64 rows (5% up to 6000), header nesting <=3; numpy is the reference for bytes")
 
 SPECS["C04"] = _rec(
-    "C04", 25000, 2000000,
+    "C04", 20000, 2000000,
     ("as C01 for delimited text (delimiters , : tab space ; |), integer/float/byte-string fields in either byte order; the "
      "text is additionally tokenised by an independent parser; a quarter of the tables reach the file in 2-3 blocks through "
      "one writer handle (later blocks in either byte order), a fifth get an append by reopening, 15% are taken up again "
